@@ -1,5 +1,6 @@
 """Small AST helpers shared by the rules."""
 import ast
+from .loader import _clone
 
 from .index import dotted, walk_local
 
@@ -180,7 +181,7 @@ def keytext(f, node):
         if len(body) != 1:
             return node
         node = body[0].value if isinstance(body[0], ast.Expr) else body[0]
-    return ast.unparse(_Blank(local_names(fnode)).visit(copy.deepcopy(node)))
+    return ast.unparse(_Blank(local_names(fnode)).visit(_clone(node)))
 
 
 class _Alpha(ast.NodeTransformer):
@@ -194,7 +195,7 @@ class _Alpha(ast.NodeTransformer):
 def alpha(node, ren):
     """Copy of node with the locals in `ren` renamed to role names: comparisons are made on roles, never on spellings."""
     import copy
-    return ast.fix_missing_locations(_Alpha(ren).visit(copy.deepcopy(node)))
+    return ast.fix_missing_locations(_Alpha(ren).visit(_clone(node)))
 
 
 FLIPPED = {"Lt": "Gt", "Gt": "Lt", "LtE": "GtE", "GtE": "LtE", "Eq": "Eq", "NotEq": "NotEq", "Is": "Is", "IsNot": "IsNot"}
@@ -211,3 +212,14 @@ def oriented(cmp, left_pred):
     if op in FLIPPED and left_pred(r):
         return r, FLIPPED[op], l
     return None
+
+
+def flat(block):
+    """Statements of a block in execution order with guard chains linearised: the loader nests what follows a leaving guard
+    (`if c: ...; raise/return/break/continue`) into its else branch; rules that scan "the statements of this block" want the sequence
+    the author wrote.  Yields the guard `If` itself and then the statements of its else branch (recursively)."""
+    for st in block:
+        yield st
+        if isinstance(st, ast.If) and st.orelse and st.body and isinstance(st.body[-1], (ast.Raise, ast.Return, ast.Break, ast.Continue)) \
+                and not (len(st.orelse) == 1 and isinstance(st.orelse[0], ast.If) and False):
+            yield from flat(st.orelse)
